@@ -67,6 +67,10 @@ class Opaque:
     def __getitem__(self, i):
         return Opaque(f"{self.name}[]")
 
+    def __iter__(self):
+        # without this, list(opaque) falls back to __getitem__(0), (1), ... and never ends
+        raise Undecided(f"iteration over opaque {self.name}")
+
     def __repr__(self):
         return f"Opaque({self.name})"
 
@@ -135,6 +139,90 @@ class EnumMember:
         raise PyRaise(f"AttributeError: {attr}")
 
 
+class StrEnumMember(str):
+    """member of a `class X(str, Enum)`: IS its string value (formatting, ==, hashing, dictionary keys)"""
+
+    def __new__(cls_, cls, name, value):
+        o = str.__new__(cls_, value)
+        o.cls, o.name, o.value = cls, name, value
+        return o
+
+
+class ListObj(list):
+    """instance of a repository class that derives from list"""
+
+    def __init__(self, cls, items=()):
+        super().__init__(items)
+        self.cls = cls
+        self.attrs = {}
+
+    def __hash__(self):
+        return id(self)
+
+    def __repr__(self):
+        return f"<{self.cls.short} {list.__repr__(self)}>"
+
+
+class DictObj(dict):
+    """instance of a repository class that derives from dict"""
+
+    def __init__(self, cls, *a, **k):
+        super().__init__(*a, **k)
+        self.cls = cls
+        self.attrs = {}
+
+    def __hash__(self):
+        return id(self)
+
+
+def _builtin_base(repo, cls):
+    for k in repo.mro(cls):
+        for b in k.bases:
+            if b in ("list", "dict"):
+                return b
+    return None
+
+
+class PropertyObj:
+    """property(fget, fset) built by a call (a class-level `x = property(...)` or a helper that returns one)"""
+
+    def __init__(self, fget=None, fset=None):
+        self.fget, self.fset = fget, fset
+
+    def interp_getattr(self, attr):
+        if attr == "setter":
+            return Native(lambda a, k: PropertyObj(self.fget, a[0]), "property.setter")
+        if attr == "getter":
+            return Native(lambda a, k: PropertyObj(a[0], self.fset), "property.getter")
+        if attr in ("fget", "fset"):
+            return getattr(self, attr)
+        raise PyRaise(f"AttributeError: {attr}")
+
+
+class LoggerStub:
+    """logging.getLogger(...): a logger handed around as a value (a helper that takes `log`); its methods do nothing, or
+    report to the model's log hook"""
+
+    def __init__(self, interp):
+        self.interp = interp
+
+    def interp_getattr(self, attr):
+        if attr in ("debug", "info", "warning", "error", "exception", "critical", "log", "warn"):
+            def emit(a, k, attr=attr):
+                hook = self.interp.__dict__.get("log_hook")
+                if hook is not None:
+                    hook(attr, list(a))
+                return None
+            return Native(emit, f"logger.{attr}")
+        if attr in ("isEnabledFor",):
+            return Native(lambda a, k: False, "logger.isEnabledFor")
+        if attr in ("setLevel", "addHandler", "removeHandler"):
+            return Native(lambda a, k: None, f"logger.{attr}")
+        if attr in ("level", "name"):
+            return 0 if attr == "level" else "logger"
+        return Opaque(f"logger.{attr}")
+
+
 class ClassRef:
     def __init__(self, cls):
         self.cls = cls
@@ -142,9 +230,18 @@ class ClassRef:
     def __iter__(self):
         if not any(b.split(".")[-1] in ("IntEnum", "Enum") for b in self.cls.bases):
             raise Undecided(f"iteration over class {self.cls.name}")
-        for nm, ex in self.cls.consts.items():
+        names = [nm for nm, ex in self.cls.consts.items() if not nm.startswith("_") and not isinstance(ex, ast.Lambda)]
+        for nm in names:
+            ex = self.cls.consts[nm]
             if isinstance(ex, ast.Constant):
-                yield EnumMember(self.cls, nm, ex.value)
+                if any(b == "str" for b in self.cls.bases) and isinstance(ex.value, str):
+                    yield StrEnumMember(self.cls, nm, ex.value)
+                else:
+                    yield EnumMember(self.cls, nm, ex.value)
+            elif isinstance(ex, ast.Call) and ast.unparse(ex.func).split(".")[-1] == "auto":
+                yield EnumMember(self.cls, nm, names.index(nm) + 1)
+            else:
+                raise Undecided(f"iteration over enum {self.cls.name} with computed member values")
 
 
 class BoundMethod:
@@ -179,8 +276,48 @@ class Native:
         return self.fn(args, kwargs)
 
 
+class Scope(dict):
+    """local names of a nested function on top of the enclosing function's (live, not a copy)"""
+
+    def __init__(self, parent):
+        super().__init__()
+        self.parent = parent
+        self.nonlocals = set()
+
+    def __contains__(self, k):
+        return dict.__contains__(self, k) or k in self.parent
+
+    def __getitem__(self, k):
+        if dict.__contains__(self, k):
+            return dict.__getitem__(self, k)
+        return self.parent[k]
+
+    def get(self, k, d=None):
+        return self[k] if k in self else d
+
+    def __setitem__(self, k, v):
+        if k in self.nonlocals:
+            self.parent[k] = v
+        else:
+            dict.__setitem__(self, k, v)
+
+    def setdefault(self, k, d=None):
+        if k not in self:
+            dict.__setitem__(self, k, d)
+        return self[k]
+
+    def flat(self):
+        out = flat_env(self.parent)
+        out.update(dict.items(self))
+        return out
+
+
+def flat_env(env):
+    return env.flat() if isinstance(env, Scope) else dict(env)
+
+
 class Closure:
-    """a lambda with its defining environment"""
+    """a lambda, or a function defined inside a function, with its defining environment"""
 
     def __init__(self, interp, node, env):
         self.interp, self.node, self.env = interp, node, env
@@ -188,7 +325,12 @@ class Closure:
     def __call__(self, args, kwargs):
         a = self.node.args
         params = [p.arg for p in a.posonlyargs + a.args]
-        env = dict(self.env)
+        is_def = not isinstance(self.node, ast.Lambda)
+        env = Scope(self.env) if is_def else flat_env(self.env)
+        kwargs = dict(kwargs)
+        if is_def:
+            for p in params + [x.arg for x in a.kwonlyargs] + ([a.vararg.arg] if a.vararg else []) + ([a.kwarg.arg] if a.kwarg else []):
+                dict.__setitem__(env, p, _UNSET)
         if len(args) > len(params) and a.vararg is None:
             raise Undecided("lambda arity")
         for p, v in zip(params, args):
@@ -197,14 +339,42 @@ class Closure:
             env[a.vararg.arg] = tuple(args[len(params):])
         dstart = len(params) - len(a.defaults)
         for i, p in enumerate(params):
-            if p not in env or i >= len(args):
+            if i >= len(args):
                 if p in kwargs:
-                    env[p] = kwargs[p]
-                elif i >= dstart and i >= len(args):
+                    env[p] = kwargs.pop(p)
+                elif i >= dstart:
                     env[p] = self.interp.eval(a.defaults[i - dstart], self.env)
-                elif i >= len(args):
-                    raise Undecided(f"lambda missing argument {p}")
-        return self.interp.eval(self.node.body, env)
+                else:
+                    raise Undecided(f"{'function' if is_def else 'lambda'} missing argument {p}")
+        for p, d in zip(a.kwonlyargs, a.kw_defaults):
+            if p.arg in kwargs:
+                env[p.arg] = kwargs.pop(p.arg)
+            elif d is not None:
+                env[p.arg] = self.interp.eval(d, self.env)
+            else:
+                raise Undecided(f"missing keyword-only argument {p.arg}")
+        if a.kwarg is not None:
+            env[a.kwarg.arg] = kwargs
+        elif kwargs and is_def:
+            raise Undecided(f"unexpected keyword arguments {list(kwargs)} for {getattr(self.node, 'name', 'lambda')}")
+        if not is_def:
+            return self.interp.eval(self.node.body, env)
+        it = self.interp
+        if it.depth >= it.max_depth + 4:
+            raise Undecided(f"inlining depth exceeded at local function {self.node.name}")
+        if _is_generator(self.node):
+            return it._make_generator(self.node.body, env, self.node.name, [ast.unparse(d) for d in self.node.decorator_list])
+        it.depth += 1
+        try:
+            it.exec_block(self.node.body, env)
+        except _Return as r:
+            return r.value
+        finally:
+            it.depth -= 1
+        return None
+
+
+_UNSET = object()
 
 
 class ModuleRef:
@@ -260,17 +430,31 @@ class Interp:
             env[a.kwarg.arg] = kwargs
         elif kwargs:
             raise Undecided(f"unexpected kwargs {list(kwargs)} for {fi.qual}")
-        is_gen = _is_generator(fi.node)
-        if is_gen:
-            env["__yield__"] = []
+        if _is_generator(fi.node):
+            return self._make_generator(fi.node.body, env, fi.qual, fi.decorators())
         self.depth += 1
         try:
             self.exec_block(fi.node.body, env)
         except _Return as r:
-            return env["__yield__"] if is_gen else r.value
+            return r.value
         finally:
             self.depth -= 1
-        return env["__yield__"] if is_gen else None
+        return None
+
+    def _make_generator(self, body, env, name, decorators=()):
+        """a generator function was called: nothing of its body runs until the first next() (vlib.pystd.GenIter)"""
+        from .pystd import GenCM, GenIter
+
+        def run(channel):
+            env["__yield__"] = channel
+            try:
+                self.exec_block(body, env)
+            except _Return:
+                pass
+        g = GenIter(self, run, name)
+        if any(d.split(".")[-1] in ("contextmanager", "asynccontextmanager") for d in decorators):
+            return GenCM(g)
+        return g
 
     def class_env(self, cls):
         """namespace of a class body, by executing its statements in order (assignments, loops,
@@ -307,7 +491,8 @@ class Interp:
                 env["__yield__"].append(self.eval(v.value, env) if v.value is not None else None)
                 return
             if isinstance(v, ast.YieldFrom):
-                env["__yield__"].extend(list(self.eval(v.value, env)))
+                from .pystd import lazy_iter
+                env["__yield__"].extend(lazy_iter(self.eval(v.value, env)))
                 return
             self.eval(v, env)
             return
@@ -345,23 +530,11 @@ class Interp:
         if isinstance(st, (ast.With, ast.AsyncWith)):
             # context managers used in analysed code are locks: body runs once.  A model lock (an Obj carrying Native
             # __enter__/__exit__, handed in by a model) is entered and released, so a model can act at the release point
-            mgrs = []
-            for item in st.items:
-                if isinstance(item.context_expr, (ast.Name, ast.Attribute)):
-                    try:
-                        v = self.eval(item.context_expr, env)
-                    except (Undecided, PyRaise):
-                        continue
-                    if isinstance(v, Obj) and isinstance(v.attrs.get("__exit__"), Native):
-                        mgrs.append(v)
-            for m_ in mgrs:
-                if isinstance(m_.attrs.get("__enter__"), Native):
-                    m_.attrs["__enter__"]([], {})
-            try:
-                self.exec_block(st.body, env)
-            finally:
-                for m_ in reversed(mgrs):
-                    m_.attrs["__exit__"]([None, None, None], {})
+            # Anything else with the protocol - a repository class with __enter__/__exit__ (or the async pair), what
+            # @contextmanager makes of a generator function, contextlib.suppress / closing / nullcontext - is entered,
+            # bound to its `as` target and left with the exception (if any); a manager that returns true swallows it.
+            # Managers the analysis cannot see into (threading.Lock(), an opaque object) guard a body that runs once.
+            self._exec_with(st, env, 0)
             return
         if isinstance(st, ast.While):
             n = 0
@@ -384,16 +557,10 @@ class Interp:
                 raise Undecided("iteration over opaque")
             broke = False
 
-            def live(seq):
-                # Python iterates a list by index over the LIVE object: removals and appends during the loop count
-                if isinstance(seq, list):
-                    i = 0
-                    while i < len(seq):
-                        yield seq[i]
-                        i += 1
-                else:
-                    yield from list(seq)
-            for v in live(it):
+            # Python iterates a list by index over the LIVE object: removals and appends during the loop count; an
+            # iterator (generator, filter, map, chain ...) is advanced one element per round
+            from .pystd import lazy_iter
+            for v in lazy_iter(it):
                 self.assign(st.target, v, env)
                 try:
                     self.exec_block(st.body, env)
@@ -419,7 +586,12 @@ class Interp:
                         if h.type is None or tn in ("Exception", "BaseException") or tn.split(".")[-1] in e.what:
                             if h.name:
                                 env[h.name] = Opaque("exc")
-                            self.exec_block(h.body, env)
+                            try:
+                                self.exec_block(h.body, env)
+                            except PyRaise as e2:
+                                if e2.what == "re-raise":
+                                    raise e     # a bare `raise` in the handler: the exception being handled goes on
+                                raise
                             break
                     else:
                         raise
@@ -437,7 +609,16 @@ class Interp:
             for nm in st.names:
                 env.pop(nm, None)
             return
-        if isinstance(st, (ast.Nonlocal, ast.Import, ast.ImportFrom)):
+        if isinstance(st, ast.Nonlocal):
+            if isinstance(env, Scope):
+                env.nonlocals.update(st.names)
+                for nm in st.names:
+                    dict.pop(env, nm, None)
+            return
+        if isinstance(st, (ast.Import, ast.ImportFrom)):
+            return
+        if isinstance(st, (ast.FunctionDef, ast.AsyncFunctionDef)):
+            env[st.name] = Closure(self, st, env)   # a local function: sees the enclosing scope live, as in Python
             return
         if isinstance(st, ast.Delete):
             for t in st.targets:
@@ -453,6 +634,99 @@ class Interp:
             return
         raise Undecided(f"unsupported statement {type(st).__name__} line {st.lineno}")
 
+    def _exec_with(self, st, env, i):
+        if i == len(st.items):
+            self.exec_block(st.body, env)
+            return
+        item = st.items[i]
+        try:
+            m = self.eval(item.context_expr, env)
+        except Undecided:
+            m = Opaque("context manager")
+        kind = None
+        if hasattr(m, "enter") and hasattr(m, "exit") and not isinstance(m, Obj):
+            kind = "std"
+        elif isinstance(m, Obj) and isinstance(m.attrs.get("__exit__"), Native):
+            kind = "model"
+        elif isinstance(m, Obj) and m.cls is not None:
+            names = {n for k in self.repo.mro(m.cls) for n in k.methods}
+            if "__enter__" in names and "__exit__" in names and not isinstance(st, ast.AsyncWith):
+                kind = "sync"
+            elif "__aenter__" in names and "__aexit__" in names:
+                kind = "async"
+            elif "__enter__" in names and "__exit__" in names:
+                kind = "sync"
+        if kind == "std":
+            value = m.enter(self)
+        elif kind == "model":
+            en = m.attrs.get("__enter__")
+            value = en([], {}) if isinstance(en, Native) else m
+        elif kind in ("sync", "async"):
+            value = self.apply(self.getattr(m, "__enter__" if kind == "sync" else "__aenter__"), [], {}, st)
+        else:
+            value = m
+        if item.optional_vars is not None:
+            self.assign(item.optional_vars, value, env)
+
+        def leave(exc):
+            """-> True when the manager swallows the exception"""
+            if kind == "std":
+                return bool(m.exit(self, exc))
+            if kind == "model":
+                m.attrs["__exit__"]([None, None, None], {})
+                return False
+            if kind in ("sync", "async"):
+                a = [None, None, None] if exc is None else [Opaque(exc.what.split(":")[0]), Opaque("exc"), Opaque("traceback")]
+                r = self.apply(self.getattr(m, "__exit__" if kind == "sync" else "__aexit__"), a, {}, st)
+                return exc is not None and r is not None and not isinstance(r, Opaque) and self.truth(r)
+            return False
+        try:
+            self._exec_with(st, env, i + 1)
+        except PyRaise as e:
+            if not leave(e):
+                raise
+            return
+        except (_Return, _Break, _Continue):
+            leave(None)
+            raise
+        except BaseException:
+            if kind == "model":
+                leave(None)   # a model lock is released whatever ends the analysis of the body
+            raise
+        leave(None)
+
+    def setattr(self, base, attr, val):
+        """attribute store on an instance: a property setter of its class (or a class-level property object) takes it,
+        else it lands in the instance"""
+        if base.cls is not None:
+            for k in self.repo.mro(base.cls):
+                if attr in k.setters:
+                    self.call(k.setters[attr], base, [val])
+                    return
+                if attr in k.methods and k.methods[attr].is_property:
+                    raise PyRaise(f"AttributeError: can't set attribute '{attr}'")
+                if attr in k.consts:
+                    cv = self._class_value(k, attr)
+                    if isinstance(cv, PropertyObj):
+                        if cv.fset is None:
+                            raise PyRaise(f"AttributeError: can't set attribute '{attr}'")
+                        self.apply(cv.fset, [base, val], {})
+                        return
+                    break
+        hook = base.attrs.get("__setattr_hook__")
+        if hook is not None:
+            hook([attr, val], {})  # model objects that record plain attribute stores
+        base.attrs[attr] = val
+
+    def apply_hooked(self, callee, args, kwargs, node=None):
+        """apply, after giving a model's call hook the chance to stand in (calls made through functools.partial,
+        methodcaller ... must reach the same stand-ins as direct calls)"""
+        if self.call_hook is not None:
+            r = self.call_hook(self, node, callee, list(args), dict(kwargs))
+            if r is not NotImplemented:
+                return r
+        return self.apply(callee, args, kwargs, node)
+
     def assign(self, target, val, env):
         if isinstance(target, ast.Name):
             if target.id in env.get("__globals__", ()):
@@ -462,7 +736,13 @@ class Interp:
             return
         if isinstance(target, ast.Attribute):
             base = self.eval(target.value, env)
+            if isinstance(base, (ListObj, DictObj)):
+                base.attrs[target.attr] = val
+                return
             if isinstance(base, Obj):
+                self.setattr(base, target.attr, val)
+                return
+            if False:
                 hook = base.attrs.get("__setattr_hook__")
                 if hook is not None:
                     hook([target.attr, val], {})  # model objects that record plain attribute stores
@@ -524,6 +804,8 @@ class Interp:
             bm = BoundMethod(None, cb.methods[e.id])  # a class-level table naming a function of the class body: the plain function
             bm.unbound = not cb.methods[e.id].is_static
             return bm
+        if e.id == "__name__" and mod is not None:
+            return mod.rel[4:-3].replace("/", ".") if mod.rel.startswith("src/") else mod.rel
         if e.id in ("True", "False", "None"):
             return {"True": True, "False": False, "None": None}[e.id]
         if e.id in BUILTINS:
@@ -549,6 +831,11 @@ class Interp:
                     return BoundMethod(None, m2.dropped_functions[nm])
         if e.id in ("struct", "time", "asyncio", "logging", "re", "math", "threading", "socket", "enum", "operator", "contextlib", "dataclasses", "typing", "functools", "itertools", "collections"):
             return ModuleRef(e.id)
+        if mod is not None and e.id in mod.imports and mod.imports[e.id][0] == 0:
+            from .pystd import STD_MODULES
+            _lvl, _m, _n = mod.imports[e.id]
+            if _m in STD_MODULES or _m in ("struct", "re", "time", "asyncio", "math"):
+                return Builtin(f"{_m}.{_n}")   # from functools import partial, from operator import attrgetter ...
         if mod is not None and e.id in mod.imports:
             if mod.imports[e.id][0] >= 1 and e.id.startswith("_"):
                 raise Undecided(f"`{e.id}` is imported from inside the package but its definition was not found")
@@ -564,7 +851,7 @@ class Interp:
             r = self.attr_hook(self, base, attr)
             if r is not NotImplemented:
                 return r
-        if isinstance(base, Obj):
+        if isinstance(base, (Obj, ListObj, DictObj)):
             if attr in base.attrs:
                 return base.attrs[attr]
             if base.cls is not None:
@@ -573,11 +860,36 @@ class Interp:
                         fi = k.methods[attr]
                         if fi.is_property:
                             return self.call(fi, base)
+                        if "classmethod" in fi.decorators():
+                            return BoundMethod(ClassRef(base.cls), fi)
                         return BoundMethod(base, fi)
                     if attr in k.consts:
-                        return self._class_value(k, attr)
+                        cv = self._class_value(k, attr)
+                        if isinstance(cv, PropertyObj):
+                            return self.apply(cv.fget, [base], {}, node)
+                        return cv
                 if attr == "__class__":
                     return ClassRef(base.cls)
+            if isinstance(base, (ListObj, DictObj)):
+                return PyMethod(base, attr)   # the inherited list / dict method
+            raise PyRaise(f"AttributeError: {attr}", node)
+        if isinstance(base, (EnumMember, StrEnumMember)):
+            if attr in ("name", "value"):
+                return getattr(base, attr)
+            if attr == "__class__":
+                return ClassRef(base.cls)
+            for k in self.repo.mro(base.cls):
+                if attr in k.methods:
+                    fi = k.methods[attr]
+                    if fi.is_property:
+                        return self.call(fi, base)
+                    if "classmethod" in fi.decorators():
+                        return BoundMethod(ClassRef(base.cls), fi)
+                    return BoundMethod(None if fi.is_static else base, fi)
+                if attr in k.consts and not self._is_enum_member_name(k, attr):
+                    return self._class_value(k, attr)
+            if isinstance(base, StrEnumMember):
+                return PyMethod(str(base), attr)
             raise PyRaise(f"AttributeError: {attr}", node)
         if isinstance(base, ClassRef) and attr in ("__name__", "__qualname__"):
             return base.cls.short if attr == "__name__" else base.cls.name
@@ -589,28 +901,28 @@ class Interp:
                     return BoundMethod(base.obj, k.methods[attr])
                 if k is base.after:
                     seen = True
+            if isinstance(base.obj, ListObj):
+                if attr == "__init__":
+                    return Native(lambda a, k, o=base.obj: list.__init__(o, *a), "list.__init__")
+                return PyMethod(base.obj, attr)
+            if isinstance(base.obj, DictObj):
+                if attr == "__init__":
+                    return Native(lambda a, k, o=base.obj: dict.__init__(o, *a, **k), "dict.__init__")
+                return PyMethod(base.obj, attr)
             if attr == "__init__":
                 return Builtin("noop")
             raise Undecided(f"super().{attr} not found")
         if isinstance(base, ClassRef):
-            if any(b.split(".")[-1] in ("IntEnum", "Enum") for b in base.cls.bases) and attr in base.cls.consts:
-                ex_ = base.cls.consts[attr]
-                cache = self.__dict__.setdefault("_enum_members", {})
-                if (base.cls.name, attr) in cache:
-                    return cache[(base.cls.name, attr)]
-                m_ = None
-                if isinstance(ex_, ast.Constant):
-                    m_ = EnumMember(base.cls, attr, ex_.value)
-                elif isinstance(ex_, ast.Call) and ast.unparse(ex_.func).split(".")[-1] == "auto" and not ex_.args:
-                    members = [k_ for k_, v_ in base.cls.consts.items() if isinstance(v_, (ast.Constant, ast.Call)) and not k_.startswith("_")]
-                    m_ = EnumMember(base.cls, attr, members.index(attr) + 1)
+            if _is_enum(base.cls) and attr in base.cls.consts and self._is_enum_member_name(base.cls, attr):
+                m_ = self.enum_member(base.cls, attr)
                 if m_ is not None:
-                    cache[(base.cls.name, attr)] = m_   # one object per member: `is` works
                     return m_
             for k in self.repo.mro(base.cls):
                 if attr in k.consts:
                     return self._class_value(k, attr)
                 if attr in k.methods:
+                    if "classmethod" in k.methods[attr].decorators():
+                        return BoundMethod(base, k.methods[attr])
                     return BoundMethod(None, k.methods[attr])
                 if attr in getattr(k, "inner", {}):
                     return ClassRef(k.inner[attr])
@@ -620,6 +932,8 @@ class Interp:
                 import re as _re
                 return int(getattr(_re, attr))
             return Builtin(f"{base.name}.{attr}")
+        if isinstance(base, Builtin) and "." in base.name and base.name.split(".")[0] in ("itertools", "functools", "operator", "contextlib", "collections", "enum", "dataclasses", "typing"):
+            return Builtin(f"{base.name}.{attr}")   # itertools.chain.from_iterable
         if isinstance(base, Builtin) and base.name in ("dict", "str", "bytes", "int", "list", "tuple", "set", "frozenset", "float"):
             import builtins as _b
             return PyMethod(getattr(_b, base.name), attr)  # dict.fromkeys, str.join, bytes.fromhex, int.from_bytes ...
@@ -641,6 +955,37 @@ class Interp:
             raise PyRaise(f"AttributeError: '{type(base).__name__}' object has no attribute '{attr}'", node)
         raise Undecided(f"attribute {attr} of {type(base).__name__}")
 
+    def _is_enum_member_name(self, cls, attr):
+        ex_ = cls.consts.get(attr)
+        return ex_ is not None and not attr.startswith("_") and not isinstance(ex_, ast.Lambda)
+
+    def enum_member(self, cls, attr):
+        """the (one) member object `cls.attr` of an Enum class: constant, auto() or computed value; a str mixin makes the
+        member a string"""
+        cache = self.__dict__.setdefault("_enum_members", {})
+        if (cls.name, attr) in cache:
+            return cache[(cls.name, attr)]
+        ex_ = cls.consts[attr]
+        if isinstance(ex_, ast.Constant):
+            val = ex_.value
+        elif isinstance(ex_, ast.Call) and ast.unparse(ex_.func).split(".")[-1] == "auto" and not ex_.args:
+            members = [k_ for k_ in cls.consts if self._is_enum_member_name(cls, k_)]
+            val = members.index(attr) + 1
+        else:
+            try:
+                val = self.eval(ex_, {"__class__": cls, "__mod__": cls.mod, "__classbody__": cls})
+            except Undecided:
+                return None
+        if any(b == "str" for b in cls.bases) and isinstance(val, str):
+            m_ = StrEnumMember(cls, attr, val)
+        else:
+            m_ = EnumMember(cls, attr, val)
+        cache[(cls.name, attr)] = m_   # one object per member: `is` works
+        return m_
+
+    def enum_members(self, cls):
+        return [m for m in (self.enum_member(cls, a) for a in cls.consts if self._is_enum_member_name(cls, a)) if m is not None]
+
     def _record_kind(self, cls):
         """'namedtuple' / 'dataclass' for classes whose constructor Python synthesises from the annotated fields"""
         for k in self.repo.mro(cls):
@@ -659,13 +1004,17 @@ class Interp:
             for st in k.node.body:
                 if isinstance(st, ast.AnnAssign) and isinstance(st.target, ast.Name) and "ClassVar" not in ast.unparse(st.annotation):
                     fields = [f for f in fields if f[0] != st.target.id] + [(st.target.id, st.value, k)]
-        if len(args) > len(fields):
-            raise PyRaise(f"TypeError: {cls.short}() takes {len(fields)} positional arguments but {len(args)} were given", node)
+        def _no_init(d):
+            return isinstance(d, ast.Call) and ast.unparse(d.func).split(".")[-1] == "field" and \
+                any(x.arg == "init" and isinstance(x.value, ast.Constant) and x.value.value is False for x in d.keywords)
+        init_fields = [f for f in fields if not _no_init(f[1])]
+        if len(args) > len(init_fields):
+            raise PyRaise(f"TypeError: {cls.short}() takes {len(init_fields)} positional arguments but {len(args)} were given", node)
         vals = {}
-        for (nm, _d, _k), v in zip(fields, args):
+        for (nm, _d, _k), v in zip(init_fields, args):
             vals[nm] = v
         for nm, v in kwargs.items():
-            if nm not in [f[0] for f in fields] or nm in vals:
+            if nm not in [f[0] for f in init_fields] or nm in vals:
                 raise PyRaise(f"TypeError: {cls.short}() got an unexpected or repeated keyword argument '{nm}'", node)
             vals[nm] = v
         for nm, d, k in fields:
@@ -680,6 +1029,8 @@ class Interp:
                     vals[nm] = self.apply(self.eval(kw["default_factory"], env), [], {}, node)
                 elif "default" in kw:
                     vals[nm] = self.eval(kw["default"], env)
+                elif _no_init(d):
+                    continue   # set by __post_init__
                 else:
                     raise PyRaise(f"TypeError: {cls.short}() missing required argument: '{nm}'", node)
             else:
@@ -700,10 +1051,24 @@ class Interp:
         key = (mod.rel, name)
         if key in cache:
             return cache[key]
-        try:
-            v = self.repo.fold(mod.consts[name], mod)
-        except Unfoldable:
-            v = self.eval(mod.consts[name], {"__mod__": mod, "__class__": None})
+        ex_ = mod.consts[name]
+        if isinstance(ex_, ast.Call) and ast.unparse(ex_.func) in ("logging.getLogger", "getLogger"):
+            return LoggerStub(self)
+        if isinstance(ex_, (ast.Tuple, ast.List, ast.Dict, ast.Set, ast.Call, ast.Attribute)):
+            # displays / calls naming enum members, records, helper objects: interpreted (folding would flatten enum
+            # members to their values); plain constants and string arithmetic are folded
+            try:
+                v = self.eval(ex_, {"__mod__": mod, "__class__": None})
+            except (Undecided, PyRaise):
+                try:
+                    v = self.repo.fold(ex_, mod)
+                except Unfoldable:
+                    raise
+        else:
+            try:
+                v = self.repo.fold(mod.consts[name], mod)
+            except Unfoldable:
+                v = self.eval(mod.consts[name], {"__mod__": mod, "__class__": None})
         if isinstance(v, (dict, list, set, USet)):
             cache[key] = v
         return v
@@ -756,16 +1121,34 @@ class Interp:
             return self.call(callee.fi, args[0], list(args[1:]), kwargs)
         if isinstance(callee, BoundMethod):
             return self.call(callee.fi, callee.obj, args, kwargs)
-        if isinstance(callee, ClassRef) and any(b.split(".")[-1] in ("IntEnum", "Enum") for b in callee.cls.bases):
+        if isinstance(callee, ClassRef) and _is_enum(callee.cls):
             if len(args) != 1:
                 raise Undecided("enum call arity")
             v = args[0]
-            if not isinstance(v, int):
+            if isinstance(v, (EnumMember, StrEnumMember)) and v.cls is callee.cls:
+                return v
+            if not isinstance(v, (int, str, bytes, tuple, float, bool, type(None))):
                 raise Undecided("enum lookup of a symbolic value")
-            for nm, ex in callee.cls.consts.items():
-                if isinstance(ex, ast.Constant) and ex.value == v:
-                    return EnumMember(callee.cls, nm, v)
-            raise PyRaise(f"ValueError: {v} is not a valid {callee.cls.short}", node)
+            for m_ in self.enum_members(callee.cls):
+                if m_.value == v and type(m_.value) is type(v) or (isinstance(v, int) and isinstance(m_.value, int) and m_.value == v):
+                    return m_
+            raise PyRaise(f"ValueError: {v!r} is not a valid {callee.cls.short}", node)
+        if isinstance(callee, ClassRef) and _builtin_base(self.repo, callee.cls) is not None:
+            bb = _builtin_base(self.repo, callee.cls)
+            obj = ListObj(callee.cls) if bb == "list" else DictObj(callee.cls)
+            init = None
+            for k in self.repo.mro(callee.cls):
+                if "__init__" in k.methods:
+                    init = k.methods["__init__"]
+                    break
+            if init is not None:
+                self.call(init, obj, args, kwargs)
+            elif bb == "list":
+                from .pystd import lazy_iter
+                list.extend(obj, lazy_iter(args[0]) if args else [])
+            else:
+                dict.update(obj, *args, **kwargs)
+            return obj
         if isinstance(callee, ClassRef) and self._record_kind(callee.cls) is not None and not any("__init__" in k.methods for k in self.repo.mro(callee.cls)):
             return self._make_record(callee.cls, args, kwargs, node)
         if isinstance(callee, ClassRef):
@@ -803,6 +1186,8 @@ class Interp:
             return callee(*args, **kwargs)
         if isinstance(callee, (Native, Closure)):
             return callee(args, kwargs)
+        if hasattr(callee, "call") and type(callee).__module__.endswith("pystd"):
+            return callee.call(self, args, kwargs, node)   # functools.partial, itemgetter / attrgetter / methodcaller
         if isinstance(callee, Builtin):
             return callee(self, args, kwargs, node)
         if isinstance(callee, Opaque):
@@ -888,7 +1273,7 @@ class Interp:
         if isinstance(op, ast.Is):
             if l is None or r is None:
                 return l is r
-            if isinstance(l, EnumMember) and isinstance(r, EnumMember):
+            if isinstance(l, (EnumMember, StrEnumMember)) and isinstance(r, (EnumMember, StrEnumMember)):
                 return l.cls is r.cls and l.name == r.name   # enum members are singletons
             return l is r
         if isinstance(op, ast.IsNot):
@@ -1003,13 +1388,22 @@ class Interp:
         return self.eval(e.value, env)
 
     def e_Lambda(self, e, env):
-        return Closure(self, e, dict(env))
+        return Closure(self, e, flat_env(env))
+
+    def e_Yield(self, e, env):
+        env["__yield__"].append(self.eval(e.value, env) if e.value is not None else None)
+        return None
+
+    def e_YieldFrom(self, e, env):
+        from .pystd import lazy_iter
+        env["__yield__"].extend(lazy_iter(self.eval(e.value, env)))
+        return None
 
     def e_ListComp(self, e, env):
         return self._comp(e, env, list)
 
     def e_GeneratorExp(self, e, env):
-        return self._comp(e, env, list)
+        return self._comp_iter(e, env)   # lazy: evaluated as far as its consumer asks (any() / next() stop early)
 
     def e_SetComp(self, e, env):
         return self._comp(e, env, USet)
@@ -1027,25 +1421,38 @@ class Interp:
         self.assign(e.target, v, env)
         return v
 
-    def _comp(self, e, env, ctor):
-        out = []
+    def _comp_iter(self, e, env):
+        from .pystd import lazy_iter
 
         def rec(i, env2):
             if i == len(e.generators):
-                out.append(self.eval(e.elt, env2))
+                yield self.eval(e.elt, env2)
                 return
             g = e.generators[i]
-            for v in list(self.eval(g.iter, env2)):
+            for v in lazy_iter(self.eval(g.iter, env2)):
                 env3 = dict(env2)
                 self.assign(g.target, v, env3)
                 if all(self.truth(self.eval(c, env3), c) for c in g.ifs):
-                    rec(i + 1, env3)
+                    yield from rec(i + 1, env3)
 
-        rec(0, dict(env))
-        return ctor(out)
+        return rec(0, flat_env(env))
+
+    def _comp(self, e, env, ctor):
+        return ctor(list(self._comp_iter(e, env)))
+
+
+def _is_enum(cls):
+    return any(b.split(".")[-1] in ("IntEnum", "Enum", "IntFlag", "Flag", "StrEnum") for b in cls.bases)
 
 
 def _is_generator(fnode):
+    r = getattr(fnode, "_is_gen", None)
+    if r is None:
+        r = fnode._is_gen = _is_generator_(fnode)
+    return r
+
+
+def _is_generator_(fnode):
     stack = list(fnode.body)
     while stack:
         n = stack.pop()
@@ -1166,6 +1573,7 @@ class PyMethod:
         self.attr = attr
 
     def __call__(self, *args, **kwargs):
+        args = tuple(list(a) if hasattr(a, "__next__") else a for a in args)   # a method given an iterator consumes it
         if self.attr == "join" and isinstance(self.base, bytes) and args and isinstance(args[0], (list, tuple)):
             if any(not isinstance(x, (bytes, bytearray)) for x in args[0]):
                 from .symbytes import SymBytes
@@ -1186,6 +1594,8 @@ class PyMethod:
                 return Opaque(f"{self.attr}()")
         try:
             return getattr(self.base, self.attr)(*args, **kwargs)
+        except (Undecided, PyRaise):
+            raise
         except ValueError as e:
             raise PyRaise(f"ValueError: {e}")
         except IndexError as e:
@@ -1211,7 +1621,7 @@ BUILTINS = {
     "tuple", "dict", "bytes", "abs", "enumerate", "zip", "sorted", "hex", "round", "set",
     "Exception", "ValueError", "RuntimeError", "OverflowError", "getattr", "setattr", "hasattr", "callable", "dir",
     "any", "all", "next", "iter", "frozenset", "sum", "reversed", "map", "filter", "print", "divmod", "bytearray", "repr", "ord", "chr",
-    "TypeError", "KeyError", "IndexError", "AttributeError", "NotImplementedError", "StopIteration",
+    "TypeError", "KeyError", "IndexError", "AttributeError", "NotImplementedError", "StopIteration", "property",
 }
 
 
@@ -1223,6 +1633,10 @@ class Builtin:
         n = self.name
         if n == "noop":
             return None
+        if n == "property":
+            return PropertyObj(args[0] if args else kwargs.get("fget"), args[1] if len(args) > 1 else kwargs.get("fset"))
+        if n == "logging.getLogger":
+            return LoggerStub(interp)
         if n == "isinstance":
             v, t = args
             ts = t if isinstance(t, tuple) else (t,)
@@ -1234,7 +1648,7 @@ class Builtin:
                         return True
                     if py is bytes and hasattr(v, "cells"):
                         return True
-                elif isinstance(one, ClassRef) and isinstance(v, Obj) and v.cls is not None:
+                elif isinstance(one, ClassRef) and isinstance(v, (Obj, ListObj, DictObj, EnumMember, StrEnumMember)) and v.cls is not None:
                     if any(k is one.cls for k in interp.repo.mro(v.cls)):
                         return True
             return False
@@ -1256,7 +1670,7 @@ class Builtin:
                 return Opaque(n)
             for kw in ("key", "default"):
                 f_ = kwargs.get(kw)
-                if kw == "key" and isinstance(f_, (Closure, BoundMethod, Native, Builtin, PyMethod)):
+                if kw == "key" and (isinstance(f_, (Closure, BoundMethod, Native, Builtin, PyMethod)) or hasattr(f_, "call")):
                     kwargs = dict(kwargs)
                     kwargs["key"] = (lambda x, f_=f_: interp.apply(f_, [x], {}, node))
             if n in ("sorted", "list", "tuple", "max", "min") and args and isinstance(args[0], USet):
@@ -1270,12 +1684,14 @@ class Builtin:
                     raise Undecided(f"{n}() over objects ordered by their own __lt__")
             try:
                 return __builtins__[n](*args, **kwargs) if isinstance(__builtins__, dict) else getattr(__builtins__, n)(*args, **kwargs)
+            except (Undecided, PyRaise):
+                raise
             except Exception as e:
                 raise Undecided(f"builtin {n}: {e}")
         if n == "dir":
             return _dir_of(interp, args[0])
         if n == "callable":
-            return isinstance(args[0], (BoundMethod, Native, Builtin, ClassRef, PyMethod, Closure))
+            return isinstance(args[0], (BoundMethod, Native, Builtin, ClassRef, PyMethod, Closure)) or (hasattr(args[0], "call") and type(args[0]).__module__.endswith("pystd"))
         if n == "getattr":
             if not isinstance(args[1], str):
                 raise Undecided("getattr with non-constant name")
@@ -1300,8 +1716,11 @@ class Builtin:
             interp.trace.append(("setattr", args[0], args[1], args[2]))
             return None
         if n in ("any", "all"):
-            vals = [interp.truth(v) for v in list(args[0])]
-            return any(vals) if n == "any" else all(vals)
+            from .pystd import lazy_iter
+            for v in lazy_iter(args[0]):       # stops at the deciding element, as Python does
+                if interp.truth(v) == (n == "any"):
+                    return n == "any"
+            return n == "all"
         if n == "next":
             it = args[0]
             if isinstance(it, _Iter):
@@ -1311,13 +1730,19 @@ class Builtin:
                     if len(args) > 1:
                         return args[1]
                     raise PyRaise("StopIteration", node)
-            seq = list(it)
-            if seq:
-                return seq[0]
-            if len(args) > 1:
-                return args[1]
-            raise PyRaise("StopIteration", node)
+            if hasattr(it, "__next__"):
+                try:
+                    return next(it)
+                except StopIteration:
+                    if len(args) > 1:
+                        return args[1]
+                    raise PyRaise("StopIteration", node)
+            if isinstance(it, (list, tuple, dict, str, bytes, USet)):
+                raise PyRaise(f"TypeError: '{type(it).__name__}' object is not an iterator", node)
+            raise Undecided(f"next() of {it!r}")
         if n == "iter":
+            if hasattr(args[0], "__next__"):
+                return args[0]
             return _Iter(list(args[0]))
         if n in ("set", "frozenset"):
             if any(isinstance(a, Opaque) for a in args):
@@ -1329,14 +1754,20 @@ class Builtin:
             import builtins as _b
             try:
                 return getattr(_b, n)(*args, **kwargs)
+            except (Undecided, PyRaise):
+                raise
             except Exception as e:
                 raise Undecided(f"builtin {n}: {e}")
         if n == "reversed":
-            return list(reversed(list(args[0])))
+            return iter(list(reversed(list(args[0]))))
         if n == "map":
-            return [interp.apply(args[0], [v], {}, node) for v in list(args[1])]
+            from .pystd import lazy_iter
+            f_, seqs = args[0], [lazy_iter(a) for a in args[1:]]
+            return (interp.apply(f_, list(vs), {}, node) for vs in zip(*seqs))
         if n == "filter":
-            return [v for v in list(args[1]) if interp.truth(v if args[0] is None else interp.apply(args[0], [v], {}, node))]
+            from .pystd import lazy_iter
+            f_ = args[0]
+            return (v for v in lazy_iter(args[1]) if interp.truth(v if f_ is None else interp.apply(f_, [v], {}, node)))
         if n == "print":
             return None
         if n in ("re.search", "re.match", "re.fullmatch") and len(args) >= 2 and hasattr(args[1], "cells") and isinstance(args[0], (str, bytes)):
@@ -1362,9 +1793,11 @@ class Builtin:
         if n == "range":
             return range(*args)
         if n == "enumerate":
-            return list(enumerate(*args))
+            from .pystd import lazy_iter
+            return enumerate(lazy_iter(args[0]), *args[1:], **kwargs)
         if n == "zip":
-            return list(zip(*args))
+            from .pystd import lazy_iter
+            return zip(*[lazy_iter(a) for a in args])
         if n in ("Exception", "ValueError", "RuntimeError", "OverflowError", "TypeError", "KeyError", "IndexError", "AttributeError", "NotImplementedError", "StopIteration"):
             return Opaque(n)
         if n == "len" and args and hasattr(args[0], "length"):
@@ -1394,6 +1827,10 @@ class Builtin:
             return _struct.calcsize(args[0])
         if n.startswith("time.") or n.startswith("threading.") or n.startswith("socket."):
             return Opaque(n)
+        from .pystd import std_call
+        r = std_call(interp, n, args, kwargs, node)
+        if r is not NotImplemented:
+            return r
         raise Undecided(f"builtin {n} not modelled")
 
 
